@@ -12,6 +12,7 @@ RULES = {
     "A3": "DEFAULT_RESERVE_REPLENISH_AMOUNT evaluates to 80",
     "A4": "every checked subtraction/addition in match_against is guarded (a-b under b<=a or b=min(..,a); a+b with a<=display, b<=hidden)",
     "A5": "consumed = min(incoming, display); a surviving order conserves display+hidden-consumed; remaining = incoming-consumed",
+    "A6": "match_against is the only implementation of the matching rules: orders are immutable values - no function of the crate assigns to the displayed / hidden quantity field of an existing OrderType in place (a `&mut self` re-implementation would bypass A1-A5)",
     "A0": "coverage: all OrderType variants x {display<=incoming, display>incoming} reach a return on both sides",
 }
 
@@ -205,6 +206,58 @@ def run(ctx, chk):
             if n == 0:
                 chk.fail("A0", "%s:%s:ref-path-unmatched" % (fn_key, V), site,
                          "a reference path has no compatible implementation path: " + "; ".join(rres[qi].facts.describe(12)), undecided=True)
+
+    # ---- A6 no in-place mutation of order quantities anywhere in the crate
+    ot = db.adt("orders::order_type::OrderType")
+    qfields = {f for f in list(R.display.values()) + list(R.reserve.values()) if f}
+    n_scanned = 0
+    def qfield_of(place):
+        return [x for x in place["p"] if x.get("k") == "field" and x.get("adt") == ot["def"] and x.get("name") in qfields]
+    for d, bd in sorted(db.bodies.items()):
+        # where a reference-typed local points: local -> local it was borrowed / copied from
+        src = {}
+        for blk in bd.blocks:
+            for st in blk["stmts"]:
+                if st["k"] == "assign" and not st["place"]["p"]:
+                    rv = st["rv"]
+                    if rv["k"] in ("ref", "rawptr"):
+                        src.setdefault(st["place"]["l"], rv["place"]["l"])
+                    elif rv["k"] in ("use", "cast") and isinstance(rv.get("op"), dict) and rv["op"].get("k") in ("copy", "move"):
+                        src.setdefault(st["place"]["l"], rv["op"]["place"]["l"])
+
+        def root_is_param(l, seen=()):
+            """does the place rooted at local l reach back to a parameter (an order that exists outside this call)?"""
+            if 1 <= l <= bd.argc:
+                return True
+            if l in seen or l not in src:
+                return False
+            return root_is_param(src[l], seen + (l,))
+        # locals holding `&mut order.<quantity field>` (match ergonomics: `Self::Iceberg { visible_quantity, .. }` on &mut self)
+        mutrefs = {}
+        for blk in bd.blocks:
+            for st in blk["stmts"]:
+                if st["k"] == "assign" and not st["place"]["p"] and st["rv"]["k"] == "ref" and st["rv"].get("mut"):
+                    h = qfield_of(st["rv"]["place"])
+                    if h:
+                        mutrefs[st["place"]["l"]] = h
+        for blk in bd.blocks:
+            for st in blk["stmts"]:
+                if st["k"] != "assign":
+                    continue
+                n_scanned += 1
+                pj = st["place"]["p"]
+                hit = qfield_of(st["place"])
+                if not hit and pj and pj[0].get("k") == "deref" and len(pj) == 1 and st["place"]["l"] in mutrefs:
+                    hit = mutrefs[st["place"]["l"]]
+                # a local clone being modified (`let mut out = self.clone(); out.quantity = q`, also through `match &mut out`)
+                # is a new value under construction, not an existing order
+                if hit and any(x.get("k") == "deref" for x in pj) and root_is_param(st["place"]["l"]):
+                    owner = bd
+                    while owner.kind == "Closure" and owner.parent in db.bodies:
+                        owner = db.bodies[owner.parent]
+                    chk.fail("A6", "%s:%s" % (owner.defp, hit[0]["name"]), st.get("span", ""),
+                             "%s assigns to the %s field of an existing order in place: a matching/amend rule implemented outside match_against" % (owner.defp, hit[0]["name"]))
+    chk.require(n_scanned > 1000, "A6", "scan", "", "only %d assignments scanned" % n_scanned)
 
     # ---- A4 arithmetic safety (assert events carry the number of facts known when they are reached)
     for p in rets:
